@@ -6,7 +6,6 @@ import (
 	"fmt"
 	"sort"
 
-	art "github.com/Clement-Jean/go-art"
 )
 
 // ---- structural oracle (C11) and raw digest (C15) over the hook's dump ----
@@ -53,7 +52,7 @@ func (c *shapeChk) mixShape(x uint64) { c.shapeH = mix2(c.shapeH, x) }
 func (c *shapeChk) mixClass(x uint64) { c.classH = mix2(c.classH, x) }
 
 // collect returns the leaves below n in the library's own enumeration order.
-func (c *shapeChk) collect(n *art.VerifNode, out *[]leafInfo) error {
+func (c *shapeChk) collect(n *VNode, out *[]leafInfo) error {
 	if n == nil {
 		return fmt.Errorf("live slot holds a nil child")
 	}
@@ -75,7 +74,7 @@ func (c *shapeChk) collect(n *art.VerifNode, out *[]leafInfo) error {
 }
 
 // verify checks node n, whose keys have already consumed depth bytes.
-func (c *shapeChk) verify(n *art.VerifNode, depth int) ([]leafInfo, error) {
+func (c *shapeChk) verify(n *VNode, depth int) ([]leafInfo, error) {
 	if n == nil {
 		return nil, fmt.Errorf("nil node at depth %d", depth)
 	}
@@ -96,7 +95,7 @@ func (c *shapeChk) verify(n *art.VerifNode, depth int) ([]leafInfo, error) {
 	c.st.classes[ci]++
 	c.mixClass(uint64(n.Class))
 
-	var live []*art.VerifSlot
+	var live []*VSlot
 	for i := range n.Slots {
 		if n.Slots[i].Live {
 			live = append(live, &n.Slots[i])
@@ -176,7 +175,7 @@ func (c *shapeChk) verify(n *art.VerifNode, depth int) ([]leafInfo, error) {
 
 // checkShape is the C11 oracle. ids: the reference model's value ids (sorted
 // copy is made here); size: what Size() reported.
-func checkShape(root *art.VerifNode, lim int, valID func(any) (uint64, bool), hasID bool, modelIDs []uint64, size int) (*shapeChk, error) {
+func checkShape(root *VNode, lim int, valID func(any) (uint64, bool), hasID bool, modelIDs []uint64, size int) (*shapeChk, error) {
 	c := &shapeChk{lim: lim, valID: valID}
 	if root == nil {
 		if len(modelIDs) != 0 {
@@ -232,7 +231,7 @@ func checkShape(root *art.VerifNode, lim int, valID func(any) (uint64, bool), ha
 
 // digest is the raw serialisation of everything the walker can see except
 // addresses. withVals=false masks the values.
-func digest(n *art.VerifNode, valID func(any) (uint64, bool), withVals bool, out *bytes.Buffer) {
+func digest(n *VNode, valID func(any) (uint64, bool), withVals bool, out *bytes.Buffer) {
 	var u [8]byte
 	put := func(x uint64) { binary.BigEndian.PutUint64(u[:], x); out.Write(u[:]) }
 	if n == nil {
@@ -282,14 +281,14 @@ func digest(n *art.VerifNode, valID func(any) (uint64, bool), withVals bool, out
 	out.WriteByte(')')
 }
 
-func digestOf(n *art.VerifNode, valID func(any) (uint64, bool), withVals bool) []byte {
+func digestOf(n *VNode, valID func(any) (uint64, bool), withVals bool) []byte {
 	var b bytes.Buffer
 	digest(n, valID, withVals, &b)
 	return b.Bytes()
 }
 
 // leafIDs returns value ids in enumeration order.
-func leafIDs(n *art.VerifNode, valID func(any) (uint64, bool), out *[]uint64) {
+func leafIDs(n *VNode, valID func(any) (uint64, bool), out *[]uint64) {
 	if n == nil {
 		return
 	}
@@ -306,7 +305,7 @@ func leafIDs(n *art.VerifNode, valID func(any) (uint64, bool), out *[]uint64) {
 }
 
 // classHist counts inner nodes per class.
-func classHist(n *art.VerifNode, h *[4]int) {
+func classHist(n *VNode, h *[4]int) {
 	if n == nil || n.Leaf {
 		return
 	}
@@ -321,7 +320,7 @@ func classHist(n *art.VerifNode, h *[4]int) {
 }
 
 // findParentOf locates the inner node whose live child is the leaf with id.
-func findParentOf(n *art.VerifNode, id uint64, valID func(any) (uint64, bool)) *art.VerifNode {
+func findParentOf(n *VNode, id uint64, valID func(any) (uint64, bool)) *VNode {
 	if n == nil || n.Leaf {
 		return nil
 	}
